@@ -30,6 +30,11 @@ def run(chk, ctx) -> None:
     _order(chk, ctx)
     from .cover import showing_components
     showing_components(chk, ctx)
+    # before the last street (the street object itself, not one that compares equal: turn and river of hold'em are equal records) the
+    # cards that were not named stay in the hand, face down
+    from .c06 import _show_fill
+    from .helpers import Refile as _Rf
+    _show_fill(_Rf(chk, {'C06.show_fill': 'C12.show_flags'}), ctx)
     # "all hole cards to be shown": a card counts as shown only when both its rank and its suit are known
     from .helpers import Refile, known_card_helpers
     known_card_helpers(chk, ctx, 'C12.tournament')
